@@ -253,7 +253,7 @@ func runChunks(e *lib.Env, label string, cases []Case, off []string, tot *totals
 			r := lib.RunProc(lib.ProcSpec{
 				Argv:    []string{os.Args[0], "worker", base + ".in", base + ".out", base + ".d", offArg},
 				Dir:     e.Scratch,
-				Timeout: 30 * time.Minute,
+				Timeout: 4 * time.Hour, // hang guard only (a loaded machine makes a chunk 10x slower)
 			})
 			done := map[string]bool{}
 			begun := ""
@@ -337,7 +337,7 @@ func runConc(e *lib.Env, off []string, goroutines, iters int) int {
 	r := lib.RunProc(lib.ProcSpec{
 		Argv:    []string{os.Args[0], "conc", base + ".out", base + ".d", fmt.Sprint(goroutines), fmt.Sprint(iters), offArg},
 		Dir:     e.Scratch,
-		Timeout: 30 * time.Minute,
+		Timeout: 4 * time.Hour, // hang guard only (a loaded machine makes a chunk 10x slower)
 	})
 	calls, ended := 0, false
 	if f, err := os.Open(base + ".out"); err == nil {
